@@ -11,7 +11,7 @@ CONSTANTS NJobs,       \* tasks the environment may feed (numbered in feed order
           Quota,       \* maxtasks, 0 = none
           Synack,      \* BOOLEAN: acknowledgement handshake enabled
           GuardLimit,  \* retries of the result-consumption guard (300 in production)
-          Kinds,       \* how a task may end: subset of {"ok","raise","baseexc","unpicklable","memover"}
+          Kinds,       \* how a task may end: subset of {"ok","raise","baseexc","unpicklable","unpicklable_deep","unpicklable_badrepr","memover"}
           Signals,     \* BOOLEAN: a termination signal may arrive at any blocking point
           Cancels,     \* BOOLEAN: the parent may cancel a job before its ACK is processed
           DevSwallow   \* pinned code (F2): SystemExit raised by the signal handler inside task
@@ -139,13 +139,16 @@ AfterTask(c, mem) ==   \* what follows `completed += 1`
     ELSE IF QuotaReached(c) THEN Leave(<<EX_RECYCLE>>)
     ELSE pc' = "wait" /\ UNCHANGED <<code, ret, sleeps>>
 
+(* results that cannot be pickled: at shallow nesting, nested beyond the recursion limit (its repr()
+   fails too), with a __repr__ that raises *)
+Unsendable == {"unpicklable", "unpicklable_deep", "unpicklable_badrepr"}
 Finish(kind) ==   \* the task function returns / raises; result(s) written
     /\ pc = "run" /\ kind \in Kinds
     /\ LET j == cur
            res == CASE kind \in {"ok", "memover"} -> "ok"
                     [] kind = "raise" -> "err"
                     [] kind = "baseexc" -> "baseerr"
-                    [] kind = "unpicklable" -> "encerr"
+                    [] kind \in Unsendable -> "encerr"
        IN /\ out' = Append(out, Ready(j, res))
           /\ completed' = completed + 1
           /\ cur' = 0
@@ -253,7 +256,7 @@ ExitCallbackOnce == onexit <= 1 /\ (pc = "gone" <=> onexit = 1) /\ (pc = "gone" 
 SignalLeadsOut == termreq => pc \in {"run", "exiting", "gone", "ensure"}   \* "run": a task that swallowed it is still finishing
 (* C12a: an unserialisable result is reported as an encoding error for that job and the
    worker goes on *)
-EncodingErrorReported == [][act'.name = "Finish" /\ act'.kind = "unpicklable" =>
+EncodingErrorReported == [][act'.name = "Finish" /\ act'.kind \in Unsendable =>
                                 out'[Len(out')] = Ready(cur, "encerr") /\ pc' # "gone"]_vars
 
 Proj == [pc |-> pc, cur |-> cur, completed |-> completed, inq |-> inq, synq |-> synq,
